@@ -149,6 +149,17 @@ CHECKS = {
     design_ref="DESIGN.md section 4 / C16",
     technique="Coq proof that translation commutes with evaluation over a hand-written model of the builder + structural/value correspondence + cross-entry-point oracle on the implementation",
     note=TB + " PipeRunner/RoocSolver/solve_with are compared, not modelled."),
+ "C19": dict(
+    category="proof",
+    text="PARTIAL proof. Proved in Coq (axiom-free) for constant expressions of any size over literals, named constants and every binary/unary operator - what the compiler evaluates at transform time (indexes, bounds, arguments, `let` constants): "
+         "if the checker accepts (static tables PrimitiveKind::can_apply_*_op over the static kinds of PreExp::get_type), evaluation (Primitive::apply_*_op with checked integer arithmetic and division) never fails with a type-class error "
+         "or an undeclared name; it yields a value whose kind fits the static kind, or a data-dependent error (division by zero, overflow). The operator-table lemmas hold for ALL values of the accepted kinds. "
+         "Tie on every run: all 12x9x12 static triples, 25x9x25 dynamic value pairs incl. i64/u64 extremes, the static result kinds read from the checker's token map, and seeded constant expressions checked and transformed end to end. "
+         "The rest of the language is covered on the implementation: seeded programs with perturbed types in every position and all repository programs - accepted by type_check implies transform never fails with a type-class error. "
+         "Two genuine defects repaired (division by zero / overflow and non-whole values reported as type errors); one recorded as known finding F40 (decision variable in a value position).",
+    design_ref="DESIGN.md section 4 / C19",
+    technique="Coq proof of type soundness for the primitive-operator layer (finite table sweeps lifted to all values and all expressions) + exhaustive table correspondence + perturbed-program oracle on the implementation",
+    note="Trusted: Coq kernel + vm_compute; harness classification of errors and token-map reader. Functions, iterations, destructuring and declarations are tested, not modelled."),
  "C17": dict(
     category="proof",
     text="PARTIAL proof. to_lp_format is modelled at token level (lp_terms, lp_num, lp_bound, sections, generated row names) and an independently written reader of the CPLEX-LP subset lives in Coq. "
